@@ -538,7 +538,8 @@ class PenlogReader:
             try:
                 mmap.mmap(f.fileno(), 0, access=mmap.ACCESS_READ)
                 return True
-            except ValueError:
+            except (ValueError, OSError):
+                # Empty files and files which are no regular files (e.g. character devices) can not be mapped
                 return False
 
     def _prepare_for_mmap(self, path: Path) -> BinaryIO:
